@@ -66,7 +66,7 @@ def run_verus(unit_path, canary=False):
         text, canaries = add_canaries(em, text)
     open(out_rs, 'w').write(text)
     cmd = ['verus', out_rs, '--output-json', '--time', '--multiple-errors', '60', '--triggers-mode', 'silent', '--expand-errors']
-    mvo = re.search(r'^@@#\s*verify-only:\s*(\w+)', extract.unit_text(unit_path), re.M)
+    mvo = re.search(r'^@@#\s*verify-only:\s*([\w:]+)', extract.unit_text(unit_path), re.M)
     verify_only = mvo.group(1) if mvo else None
     if verify_only:
         cmd += ['--verify-root', '--verify-function', verify_only]
@@ -296,8 +296,10 @@ def fn_is_verified_here(run, fn):
     em, lines = run['em'], run['lines']
     info = em.functions[fn]
     vo = run.get('verify_only')
-    if vo and not re.search(r'::' + re.escape(vo) + r'$', fn):
-        return False
+    if vo:
+        parts = vo.split('::')
+        if not (fn.endswith('::' + parts[-1]) and all(p in fn for p in parts[:-1])):
+            return False
     for idx in range(info['first_line'] - 1, min(info.get('last_line', info['first_line']), len(lines))):
         o = em.origin[idx]
         if o['fn'] == fn and o['kind'] == 'attr' and 'external_body' in lines[idx]:
